@@ -63,13 +63,53 @@ CLAIMED = {
         "technique": "guard dominance in add_route, who-may-write the routing table, lookup-key provenance, requeue discipline shared with C16",
         "level": P + "No duplicate routes can be registered, the routing table is written only through add_route/clear, every entry point looks routes up by the current event's own type, chain depth constants agree and un-renamed outputs are never re-routed.",
     },
+    "C19": {
+        "technique": "state coverage of save/restore pairs (R-FIELDCOV) over the field access index with MIR provenance; variant coverage of the engine dispatchers",
+        "level": P + "For 14 save/restore pairs every runtime-state field must be read by the save function and restored from a checkpoint-derived value; every stateful RuntimeOp variant must be handled by create_checkpoint and restore_checkpoint. That restored values reproduce behaviour is not decided.",
+    },
+    "C20": {
+        "technique": "inverse arm tables on HIR, lossy-conversion call scan, type-level reachability of f64 through the JSON codec, codec arm table",
+        "level": P + "The Value<->SerializableValue converters are a variant bijection; millisecond truncation sites on the save path and the non-finite-float / JSON combination are reported; serialize/deserialize cover every CheckpointFormat variant with matching codecs.",
+    },
+    "C21": {
+        "technique": "must-pass-through / dominance on MIR of the atomic write, save-prune-id ordering and the fallback loop shape",
+        "level": P + "FileStore::put writes to a with_extension(\"tmp\") path and renames it into place on every successful path; save dominates prune and the id increment follows both; load_latest_checkpoint tries older ids in a loop. Crash interleavings inside the file system are not decided.",
+    },
+    "C22": {
+        "technique": "dominance of persist after mutate in the API handlers, snapshot field coverage, put-before-index ordering on MIR",
+        "level": P + "Every handler that mutates a tenant's pipelines persists before replying; snapshot fields are filled from the live objects and read back on recovery (status included); the snapshot write precedes the index update and the snapshot delete precedes the index removal.",
+    },
+    "C23": {
+        "technique": "route-builder coverage (whole-table install or arm table vs the loader) and provenance of the change-detection flag",
+        "level": P + "reload installs the freshly loaded program's routing table (or re-registers every origin the loader registers); whether change detection looks at operation contents is reported.",
+    },
+    "C24": {
+        "technique": "guarded monotone writes and must-pass-through on MIR, HIR normal forms of the late-data gate, entry-point reachability shared with C16",
+        "level": P + "Source watermarks are written only under new > current or when unset; recompute_effective follows every update and takes a minimum; an event is late only under ts < watermark and passes under ts >= watermark - allowed_lateness; which entry points apply the gate is reported.",
+    },
+    "C28": {
+        "technique": "key provenance (R-KEYED) of every TenantId argument in the tenant-scoped handlers; privacy of the tenant maps",
+        "level": P + "In each of the 12 tenant handlers the tenant acted upon is get_tenant_by_api_key(request key); cross-tenant accessors are not reachable from them; the tenant maps are private fields.",
+    },
+    "C29": {
+        "technique": "warp route-chain flattening (R-ROUTE) on HIR, guard dominance inside the auth filters on MIR",
+        "level": P + "All 58 route chains (cluster 35, raft 7, tenant 12, admin 4) have path::end before the method filter, an auth filter of their family and at least the role their method requires (listed exceptions); the filters admit only under their permission / key test; admin handlers touch the manager only after validate_admin_key.",
+    },
     "C30": {
         "technique": "who-may-write on the field index, guard normal forms and provenance of panicking float->Duration conversions on MIR",
         "level": P + "tokens is written only by the clamped refill and by the decrement under tokens >= 1 after refill; admission only on the decrement path; no Duration::from_secs_f64 of a quotient without a positive-divisor test (accepted rate 0).",
     },
+    "C31": {
+        "technique": "same-value / canonicalisation provenance and guard dominance on MIR",
+        "level": P + "validate_path returns the very path it tested, the test is Path::starts_with on two canonicalised paths and dominates Ok; request-derived paths in the server modules reach the file system only through validate_path.",
+    },
     "C33": {
         "technique": "provenance slices of placement inputs and targets, transition-table extraction (R-FSM) on MIR",
         "level": P + "Every place() input is is_available-filtered; every record fixing a target (DeployTask, MigratePipelinePlan, MigrationTask) gets it from place() or under is_available() == true; WorkerNode.status transitions and their guards match the contract table (Unhealthy only in the sweep under Ready and elapsed > timeout).",
+    },
+    "C34": {
+        "technique": "loop/return shape on HIR, sibling call agreement, effect scan (fixed-key hasher, single atomic RMW) on MIR",
+        "level": P + "find_target_pipeline returns at the first matching route in declaration order and defaults to the first pipeline; pattern tests are `*`, prefix, equality; single and batch injection share target and replica selection; the key hash is fixed-key and round-robin is one atomic fetch_add modulo the replica count.",
     },
     "C35": {
         "technique": "effect reachability over the call graph (R-DET), arm table, serde-attribute scan and provenance of LogState fields (cfg raft + persistent)",
